@@ -883,7 +883,7 @@ func (sm *shardManagerImpl) GetIntraProxyTLSConfig() encryption.TLSConfig {
 }
 
 func (sm *shardManagerImpl) broadcastShardChange(msgType string, shard history.ClusterShardID, timestamp time.Time) {
-	if verifTapBroadcast(sm, msgType, shard) {
+	if verifTapBroadcast(sm, msgType, shard, timestamp) {
 		return
 	}
 	if !sm.started || sm.ml == nil || sm.memberlistConfig == nil {
